@@ -126,6 +126,11 @@ def run(rep):
              'value: the only skips are "nothing stored" (is None) and "a '
              'different object than the one named" (identity) (shared with C09 '
              'R09.1)', floor=1)
+    rep.rule('R16.7', 'a listed registration stays findable and the repair method finds '
+             'nothing to repair: removing the last registration of a provided interface '
+             'drops exactly that interface from the extendor index (never a base that is '
+             'still registered), and subscribed() answers by membership of the leaf '
+             '(C04 R04.3, C09 R09.1)', floor=3)
     rep.decline('"every query answers as registries holding exactly the listed '
                 'registrations" and "rebuildUtilityRegistryFromLocalCache finds '
                 'nothing to repair" for arbitrary histories')
@@ -246,3 +251,6 @@ def run(rep):
     # IS that object (the listing is updated by equality-free replacement: an
     # equal-but-distinct factory must reach the registry as well)
     mutators.register_same_value(rep, 'R16.6', amod)
+    shared.extendor_index(rep, 'R16.7', amod)
+    from .C09 import subscribed_membership
+    subscribed_membership(rep, amod, 'R16.7')
